@@ -247,9 +247,9 @@ def filter_ignore_block(text: str) -> str:
         ignore_start = text.index(REUSE_IGNORE_START)
     if REUSE_IGNORE_END in text:
         ignore_end = text.index(REUSE_IGNORE_END) + len(REUSE_IGNORE_END)
-    if not ignore_start:
+    if ignore_start is None:
         return text
-    if not ignore_end:
+    if ignore_end is None:
         return text[:ignore_start]
     if ignore_end > ignore_start:
         return text[:ignore_start] + filter_ignore_block(text[ignore_end:])
